@@ -37,8 +37,8 @@ const prelude = `(set-option :produce-models true)
 (define-fun imax ((a Int) (b Int)) Int (ite (>= a b) a b))
 (define-fun clamp ((x Int) (lo Int) (hi Int)) Int (ite (< x lo) lo (ite (> x hi) hi x)))
 (declare-fun rootTy (Int) Int)
-(declare-fun eref (Ref Int) Ref)
-(assert (forall ((ea Ref) (ei Int)) (! (= (eref ea ei) (mkref (rbase ea) (+ (roff ea) ei))) :pattern ((eref ea ei)))))
+(declare-fun eref (Ref Int Int) Ref)
+(assert (forall ((ea Ref) (ei Int) (es Int)) (! (= (eref ea ei es) (mkref (rbase ea) (+ (roff ea) (* ei es)))) :pattern ((eref ea ei es)))))
 (declare-fun strlen (Str) Int)
 (declare-fun strcat (Str Str) Str)
 (declare-fun pct (Int) Str)
@@ -219,13 +219,10 @@ func embDyn(r string, idx string, sz int) string {
 	if n, err := strconv.Atoi(idx); err == nil && !strings.HasPrefix(r, "(sarr ") {
 		return emb(r, n*sz)
 	}
-	off := idx
-	if sz != 1 {
-		off = fmt.Sprintf("(* %s %d)", idx, sz)
-	}
-	// eref is defined by a triggered axiom in the prelude: (eref a i) = (mkref (rbase a) (+ (roff a) i));
+	// eref is defined by a triggered axiom in the prelude: (eref a i sz) = (mkref (rbase a) (+ (roff a) (* i sz)));
 	// keeping the application explicit gives quantified contracts over slice elements a reliable e-matching trigger
-	return fmt.Sprintf("(eref %s %s)", r, off)
+	// (the index is an argument of its own, so no arithmetic has to be matched)
+	return fmt.Sprintf("(eref %s %s %d)", r, idx, sz)
 }
 
 func sel(arr, idx string) string       { return "(select " + arr + " " + idx + ")" }
